@@ -122,7 +122,7 @@ Theorem C01_pending_ends_client : forall c s n pos pep,
 Proof. exact c01_pending_ends_client. Qed.
 Print Assumptions C01_pending_ends_client.
 Theorem C01_pending_ends_server : forall c s n,
-  c_var c = VServer -> pending s = S n -> closed s = false ->
+  c_var c = VServer -> pending s = S n -> closed s = false -> cw s = [] ->
   exists s', step c s LAsyncDisc = Some s' /\
              log s' = log s ++ [FDisconnect code_disc_insufficient] /\ closed s' = true.
 Proof. exact c01_pending_ends_server. Qed.
